@@ -84,44 +84,69 @@ def r_openmode(F, S, run):
         if k not in ev:
             raise AnalysisBroken("OpenMode::%s missing" % k)
     EX, NW, TR, AP = ev["CanOpenExisting"], ev["CanOpenNew"], ev["Truncate"], ev["Append"]
-    g = CFG(fn)
-    paths = enumerate_paths(fn, g)
     pvar = ("var", fn.params[1]["n"], fn.params[1]["d"])
-    decoded = []
-    for path, outcome in paths:
-        cons = []
-        flags = 0
-        okp = True
-        for (b, dec) in path:
-            for e in g.blocks[b]["elems"]:
-                if not isinstance(e, int):
-                    continue
-                nd = fn.n(e)
-                if nd["k"] == "DeclStmt":
-                    for d in nd.get("decls", []):
-                        if "init" in d and (d.get("ct") or "").startswith("std::_Ios_Openmode"):
-                            t = fn.term(d["init"])
-                            if t[0] == "const":
-                                flags = t[1]
-                            else:
-                                okp = False
-                if nd["k"] == "CXXOperatorCallExpr" and nd.get("op") == "|=":
-                    t = fn.term(nd["args"][1])
-                    if t[0] == "const":
-                        flags |= t[1]
-                    else:
+
+    def decode(f, pv, depth=0):
+        """[(constraints, outcome, ios flags)] over the acyclic paths of f; calls of repository helpers that receive the flag
+        word are expanded in place (a helper path that throws ends the caller's path; one that returns adds its constraints)."""
+        if depth > 3:
+            raise AnalysisBroken("TranslateFlags: helper nesting too deep for decision-table extraction")
+        g = CFG(f)
+        res = []
+        for path, outcome in enumerate_paths(f, g):
+            alts = [([], 0)]            # (constraints, flags) alternatives so far along this path
+            okp = True
+            ended = []                  # alternatives that ended in a helper's throw
+            for (b, dec) in path:
+                for e in g.blocks[b]["elems"]:
+                    if not isinstance(e, int):
+                        continue
+                    nd = f.n(e)
+                    if nd["k"] == "DeclStmt":
+                        for d in nd.get("decls", []):
+                            if "init" in d and (d.get("ct") or "").startswith("std::_Ios_Openmode"):
+                                t = f.term(d["init"])
+                                if t[0] == "const":
+                                    alts = [(c, t[1]) for (c, fl) in alts]
+                                else:
+                                    okp = False
+                    if nd["k"] == "CXXOperatorCallExpr" and nd.get("op") == "|=":
+                        t = f.term(nd["args"][1])
+                        if t[0] == "const":
+                            alts = [(c, fl | t[1]) for (c, fl) in alts]
+                        else:
+                            okp = False
+                    if nd["k"] == "CXXOperatorCallExpr" and nd.get("op") in ("=", "&=", "^="):
                         okp = False
-                if nd["k"] == "CXXOperatorCallExpr" and nd.get("op") in ("=", "&=", "^="):
-                    okp = False
-            if dec is not None:
-                m = mask_decision(fn, dec[0], dec[1], pvar)
-                if m is None:
-                    okp = False
-                else:
-                    cons.append(m)
-        if not okp:
-            raise AnalysisBroken("TranslateFlags: a path uses a construct outside the decision-table fragment")
-        decoded.append((cons, outcome, flags))
+                    if nd["k"] in ("CallExpr", "CXXMemberCallExpr") and nd.get("args"):
+                        cals = [c for c in F.callees(nd) if c.cfg and "/Stream/FileWriter" in c.file and c.key != f.key]
+                        passes = [i for i, a in enumerate(nd["args"]) if f.term(a) == pv]
+                        if len(cals) == 1 and passes and passes[0] < len(cals[0].params):
+                            h = cals[0]
+                            hp = h.params[passes[0]]
+                            sub = decode(h, ("var", hp["n"], hp["d"]), depth + 1)
+                            new_alts = []
+                            for (c, fl) in alts:
+                                for (hc, ho, _hfl) in sub:
+                                    if ho == "throw":
+                                        ended.append((c + hc, fl))
+                                    else:
+                                        new_alts.append((c + hc, fl))
+                            alts = new_alts
+                if dec is not None:
+                    m = mask_decision(f, dec[0], dec[1], pv)
+                    if m is None:
+                        okp = False
+                    else:
+                        alts = [(c + [m], fl) for (c, fl) in alts]
+            if not okp:
+                raise AnalysisBroken("TranslateFlags: a path uses a construct outside the decision-table fragment")
+            for (c, fl) in ended:
+                res.append((c, "throw", fl))
+            for (c, fl) in alts:
+                res.append((c, outcome, fl))
+        return res
+    decoded = decode(fn, pvar)
     out = []
     n = 0
     all_bits = EX | NW | TR | AP
@@ -289,20 +314,32 @@ def copy_loop(F, S):
         bs = targs[0]["int"]
         rp = [nd for nd in fn.nodes if nd["k"] in CALLS and nd.get("fname") == "ReadPartial"]
         wr = [nd for nd in fn.nodes if nd["k"] in CALLS and nd.get("fname") == "Write"]
-        do = [nd for nd in fn.nodes if nd["k"] == "DoStmt"]
+        do = [nd for nd in fn.nodes if nd["k"] in ("DoStmt", "ForStmt", "WhileStmt")]
         inst = "%s#copy-loop" % fn.key
         if len(rp) != 1 or len(wr) != 1 or len(do) != 1:
             raise AnalysisBroken("copy loop shape not recognised in %s" % fn.key)
         rp, wr, do = rp[0], wr[0], do[0]
-        # numBytesRead = ReadPartial(buffer.data(), BufferSize)
+        # numBytesRead = ReadPartial(buffer.data(), BufferSize)   (assigned, or declared with it)
         asg = [nd for nd in fn.nodes if nd["k"] == "BinaryOperator" and nd.get("op") == "=" and fn.strip(fn.kids(nd["id"])[1]) == rp["id"]]
-        if len(asg) != 1:
+        cnt = None
+        asg_id = None
+        if len(asg) == 1:
+            cnt = fn.term(fn.kids(asg[0]["id"])[0])
+            asg_id = asg[0]["id"]
+        else:
+            for nd in fn.nodes:
+                if nd["k"] == "DeclStmt":
+                    for d in nd.get("decls", []):
+                        if "init" in d and fn.strip(d["init"]) == rp["id"]:
+                            cnt = ("var", d["n"], d["d"])
+                            asg_id = nd["id"]
+        if cnt is None:
             raise AnalysisBroken("copy loop: ReadPartial result is not assigned to a local in %s" % fn.key)
-        cnt = fn.term(fn.kids(asg[0]["id"])[0])
         buf = fn.term(rp["args"][0])
         req_len = fn.term(rp["args"][1])
         probs = []
-        if req_len != ("const", bs):
+        bufv = buf[2] if buf[0] == "call" and buf[1].endswith("::data") else None
+        if req_len != ("const", bs) and not (bufv is not None and req_len == ("size", bufv)):
             probs.append("requested chunk %s != BufferSize %d" % (fmt_term(req_len), bs))
         bufvar = buf[2] if buf[0] == "call" and buf[1].endswith("::data") else None
         arr_len = None
@@ -319,16 +356,21 @@ def copy_loop(F, S):
             probs.append("write source %s is not the read buffer" % fmt_term(fn.term(wr["args"][0])))
         if fn.term(wr["args"][1]) != cnt:
             probs.append("write length %s is not the count returned by ReadPartial (%s)" % (fmt_term(fn.term(wr["args"][1])), fmt_term(cnt)))
-        if not (asg[0]["id"] < wr["id"]):
+        if not (asg_id < wr["id"]):
             probs.append("write precedes the read")
-        if fn.term(do["cond"]) != cnt and fn.term(do["cond"]) != ("op", "!=", cnt, ("const", 0)) and \
-                fn.term(do["cond"]) != ("op", ">", cnt, ("const", 0)):
-            probs.append("loop condition %s is not `count != 0`" % fmt_term(fn.term(do["cond"])))
+        from ..through import continue_conditions
+        cc = continue_conditions(fn, do)
+        okc = (cnt, ("op", "!=", cnt, ("const", 0)), ("op", ">", cnt, ("const", 0)), ("op", "!=", ("const", 0), cnt), ("op", "<", ("const", 0), cnt))
+        if not (len(cc) == 1 and cc[0] in okc):
+            probs.append("the loop continues on %s, not exactly on `count != 0`" % (" && ".join(fmt_term(t) for t in cc) or "nothing"))
         body = set(fn.subtree(do["body"]))
         if rp["id"] not in body or wr["id"] not in body:
             probs.append("read/write not both inside the loop body")
-        if any(fn.n(x)["k"] in ("BreakStmt", "ReturnStmt", "ContinueStmt") for x in body):
+        if any(fn.n(x)["k"] in ("ReturnStmt", "ContinueStmt") for x in body):
             probs.append("loop has another exit")
+        # a `break` form must test the count after the write of that iteration (the final zero-length write is harmless,
+        # a test before the write is equally fine); what matters is that nothing is skipped while count != 0
+
         if probs:
             out.append(bad("R-COUNT", inst, fn.loc(do["id"]), fn.qn,
                            "each iteration writes exactly the bytes ReadPartial delivered; the loop ends only on a 0 count", "; ".join(probs)))
@@ -481,6 +523,10 @@ def check(F, run, tier):
     dst = fn.term(mc[0]["args"][0])
     ln = fn.term(mc[0]["args"][2])
     newsize = fn.term(rs[0]["args"][0])
+    if newsize[0] == "var" and dst[0] == "op":
+        # a named new size: its (only) definition, keeping the old-size local as it is
+        from .c05 import alias_defs, resolve
+        newsize = resolve(newsize, {k: v for k, v in alias_defs(fn).items() if k != dst[3]})
     good = dst[0] == "op" and dst[1] == "+" and dst[2][0] == "call" and dst[2][1].endswith("::data") and dst[2][2] == sb \
         and newsize == ("op", "+", dst[3], ln) and rs[0]["id"] < mc[0]["id"]
     oldsz_is_size = False
